@@ -161,4 +161,38 @@ BigVal(op, x, y, z) ==
     [] op = "powm" -> PowSq(x, y, z)
     [] op = "uipow" -> IntPow(x, y)
 Cmp(x, y) == IF x < y THEN -1 ELSE IF x = y THEN 0 ELSE 1
+B01(x) == IF x THEN 1 ELSE 0
+
+(* An operation instance o = [op, d, s, t, u, ...] on a register file r (a function from register numbers to   *)
+(* integers): d destination, s / t operand registers, u a machine word.  powm: r[d] := r[s]^r[t] mod r[d].       *)
+BaseOp(op) == CASE op \in {"set", "set_ui"} -> "set"
+                [] op \in {"add", "add_ui"} -> "add"
+                [] op \in {"sub", "sub_ui"} -> "sub"
+                [] op \in {"mul", "mul_ui"} -> "mul"
+                [] op \in {"div", "div_ui"} -> "div"
+                [] op \in {"mod", "mod_ui"} -> "mod"
+                [] op \in {"powm", "powm_ui"} -> "powm"
+                [] OTHER -> op
+RegOperandOps == {"set", "add", "sub", "mul", "div", "mod"}
+UpdatingOps == {"set", "set_ui", "add", "add_ui", "sub", "sub_ui", "mul", "mul_ui", "div", "div_ui", "mod", "mod_ui",
+                "neg", "abs", "mul2exp", "div2exp", "powm", "powm_ui"}
+PlainOnlyOps == {"div_ui", "div2exp"}     \* documented as unsupported on the secure back end: it may refuse
+OpX(o, r) == IF o.op \in {"powm", "powm_ui"} THEN r[o.s] ELSE r[o.d]
+OpY(o, r) == IF o.op \in RegOperandOps THEN r[o.s] ELSE IF o.op = "powm" THEN r[o.t] ELSE o.u
+OpZ(o, r) == r[o.d]
+\* the register values an operation reads
+OpReads(o, r) == CASE o.op = "set_ui" -> {}
+                   [] o.op = "set" -> {r[o.s]}
+                   [] o.op \in (RegOperandOps \ {"set"}) \cup {"cmp"} -> {r[o.d], r[o.s]}
+                   [] o.op = "powm" -> {r[o.s], r[o.t], r[o.d]}
+                   [] o.op = "powm_ui" -> {r[o.s], r[o.d]}
+                   [] OTHER -> {r[o.d]}
+\* the property speaks about non-negative operands only
+InProperty(o, r) == \A v \in OpReads(o, r) : v >= 0
+OpDefined(o, r) == o.op \in UpdatingOps => BigDefined(BaseOp(o.op), OpX(o, r), OpY(o, r), OpZ(o, r))
+OpValue(o, r) == BigVal(BaseOp(o.op), OpX(o, r), OpY(o, r), OpZ(o, r))
+OpAfter(o, r) == IF o.op \in UpdatingOps THEN [r EXCEPT ![o.d] = OpValue(o, r)] ELSE r
+\* the six comparisons ==, !=, >, <, >=, <= of two registers; the five >, <, >=, <=, == of a register and a word
+CmpWant(x, y) == LET c == Cmp(x, y) IN <<B01(c = 0), B01(c # 0), B01(c > 0), B01(c < 0), B01(c >= 0), B01(c <= 0)>>
+ObsWant(x, u) == LET c == Cmp(x, u) IN <<B01(c > 0), B01(c < 0), B01(c >= 0), B01(c <= 0), B01(c = 0)>>
 =============================================================================
